@@ -85,9 +85,14 @@ func lemmaCmpTrans(a, b, c Object) (ab, bc, ac int, eab, ebc, eac bool) {
 //@   ensures  eqtrans:: implies(result3 && result4, result5)
 //@   property C12
 
+// membudget: ghost constant, an upper bound of the free memory the guard can ever report (the configured
+// memory limit; assumed below 2^47 bytes).
+//@ define membudget() = ghostconst("membudget")
+//@ axiom budgetBound:: membudget() < 140737488355328
+
 //@ func FreeMemory assumed
 //@   modifies *
-//@   ensures  result < 140737488355328
+//@   ensures  result <= membudget() && membudget() < 140737488355328
 //@   property C09
 
 //@ func SizeOk
@@ -95,13 +100,14 @@ func lemmaCmpTrans(a, b, c Object) (ab, bc, ac int, eab, ebc, eac bool) {
 //@   modifies *
 //@   ensures  small:: implies(n <= 256, result0)
 //@   ensures  guard:: implies(result0 && n > 256, result1 >= 0 && n * 16 < result1)
-//@   ensures  limit:: implies(n > 256, result1 < 140737488355328)
+//@   ensures  limit:: implies(n > 256, result1 <= membudget())
 //@   property C09 C07
 
 //@ func MustBeOk
+//@   uses budgetBound
 //@   modifies *
 //@   maypanic would exceed memory
-//@   ensures  n <= 256 || n * 16 < 140737488355328
+//@   ensures  (n <= 256 || n * 16 < membudget()) && membudget() < 140737488355328
 //@   property C09 C07
 
 //@ func MakeObjectSlice
@@ -109,6 +115,7 @@ func lemmaCmpTrans(a, b, c Object) (ab, bc, ac int, eab, ebc, eac bool) {
 //@   modifies *
 //@   maypanic would exceed memory
 //@   ensures  len(result) == 0 && cap(result) == n
+//@   ensures  n <= 256 || n * 16 < membudget()
 //@   property C09 C07
 
 // Cmp and Equals are used as uninterpreted (deterministic) functions of their operands in the contracts of
